@@ -28,7 +28,7 @@ pub static DEF: CheckDef = CheckDef {
     id: "C05",
     level: "exploration",
     technique: "deterministic network simulation with hostile peers and clock faults: structure-aware hostile frames (every message kind, boundary sizes, length-prefix inflation, flips, truncation, nesting, claimed senders) enter a real node through its real receive loop from stub connections while the simulated wall clock is skewed and jumped, also mid-flight; per-frame oracle from the documented rules (window, size limits, connection identity), allocation measured around every delivery, victim tables read at the end",
-    runs: (600, 20000),
+    runs: (1500, 40000),
     generate,
     execute,
     shrink,
